@@ -112,7 +112,10 @@ def load_dir(d):
         else:
             role = base
         data['crate_type'] = role
+        import canon
+        aliases = canon.apply(data, role)
         out[role] = Crate(data, f)
+        out[role].field_aliases = aliases
     return out
 
 
@@ -518,6 +521,23 @@ class Fn:
             else:
                 loc = loc + ('?',)
         return loc
+
+    def discr_nvariants(self, l):
+        """number of variants of the enum whose discriminant local l holds (single `l = discriminant(place)` definition), else None"""
+        dn = getattr(self, '_discr_nv', None)
+        if dn is None:
+            dn = {}
+            cnt = defaultdict(int)
+            for b in self.blocks.values():
+                for st in b['stmts']:
+                    if st['k'] == 'assign' and not st['place']['proj']:
+                        x = st['place']['local']
+                        cnt[x] += 1
+                        if 'discr' in st['rv'] and st['rv'].get('nvariants', -1) > 0:
+                            dn[x] = st['rv']['nvariants']
+            # several assignments are fine as long as all are discriminant reads of the same width
+            self._discr_nv = dn
+        return dn.get(l)
 
     def const_local(self, l):
         """value of a local that is assigned exactly once, from an integer constant"""
